@@ -102,7 +102,7 @@ def constants_and_trace(events, dev=()):
              "kinds": sorted(set(kind.values())),
              "_info": {"registered": registered, "unit_file": {u: d["file"] for u, d in units.items()},
                        "ent_file": {k: d["file"] for k, d in ents.items()}, "page_file": {d["id"]: d["file"] for d in pages.values()},
-                       "page_path": {d["id"]: p for p, d in pages.items()}}}
+                       "page_path": {d["id"]: p for p, d in pages.items()}, "lines": lines}}
     return consts, lines, notes
 
 
@@ -130,7 +130,10 @@ def classify(result):
             return "C20", f"page {path} written for an entity of file {f}, which was not registered"
         if not ev["inwrite"]:
             return "C12", f"page {path} written outside Documentation.writeout"
-        return "C10", f"page {path} written twice, or before the output directory was wiped"
+        before = info["lines"][: result["consumed"]]
+        if not any(x["ev"] == "wipe" for x in before):
+            return "C12", f"page {path} written although the output directory had not been wiped first (what an earlier run left stays)"
+        return "C10", f"page {path} written twice: two pages share one output file"
     if k in ("correlate", "prune"):
         f = info["unit_file"].get(ev["unit"])
         if f and f not in reg:
